@@ -478,6 +478,15 @@ def c02_operand(rng, shape, truth, script, nxt):
         script[k2] = [rng.choice(TRUTHY if inner == "and" else FALSY_V)]
         script[k3] = [v]
         return T("do", 0, [T("setv", 0, [T("var", 1), T("eff", k1)]), T(inner, 0, [T("eff", k2), T("eff", k3)])])
+    if shape == "V":   # an operand that is only statements: its value is None whatever happens
+        k = nxt()
+        script[k] = [rng.choice(TRUTHY)]
+        kind = rng.randrange(3)
+        if kind == 0:
+            return T("setv", 0, [T("var", 1), T("eff", k)])
+        if kind == 1:
+            return T("for", 0, [T("var", 3), T("lit", 0, (), v=["list", 0, [["int", 1, []]]]), T("eff", k)])
+        return T("do", 0, [T("eff", k), T("setv", 0, [T("var", 1), T("lit", 0, (), v=["int", 5, []])])])
     if shape == "N":   # nested and/or whose value has the wanted truthiness
         k1, k2 = nxt(), nxt()
         script[k1] = [rng.choice(TRUTHY)]
@@ -493,7 +502,7 @@ def main_c02(run):
     nv = 3
     cases = []
     nmax = 4 if q else 5
-    shapes = "PESNIT"
+    shapes = "PESNITV"
     wrappers = ["plain", "setv", "if", "arg"]
     n_prog = 0
     pyops_checked = 0
@@ -502,7 +511,7 @@ def main_c02(run):
     for op in ("and", "or"):
         for n in range(0, nmax + 2):
             # arity nmax+1: only plain / statement operands (every position of a statement among plain ones)
-            combos = list(itertools.product(shapes if n <= nmax else "PST", repeat=n))
+            combos = list(itertools.product(shapes if n <= 3 else "PESITV" if n <= nmax else "PSTV", repeat=n))
             for sh in combos:
                 truths = list(itertools.product([True, False], repeat=n))
                 if n > nmax:
@@ -571,7 +580,7 @@ def main_c02(run):
     run.cov["pyops_value_checks"] = pyops_checked
     return run.finish("model_checking",
                       "and/or forms: operator x arity 0..%d x operand shape {plain, effect, statement-producing, "
-                      "nested} x truthiness assignment (exhaustive), arity 5..8 sampled; each also with a fault "
+                      "statements only (value None), nested} x truthiness assignment (exhaustive), arity 5..8 sampled; each also with a fault "
                       "at an operand; non-trivial = at least one effect logged" % nmax,
                       assumptions=["truthiness of the value pool as in HyCore!Truthy"])
 
